@@ -591,3 +591,45 @@ func HasRange(e Expr) bool {
 	}
 	return false
 }
+
+// HasMultiHash reports whether the expression contains a hash literal with
+// more than one pair (the engine evaluates the pairs in key order, not in
+// written order).
+func HasMultiHash(e Expr) bool {
+	switch x := e.(type) {
+	case Binary:
+		return HasMultiHash(x.L) || HasMultiHash(x.R)
+	case Unary:
+		return HasMultiHash(x.X)
+	case Paren:
+		return HasMultiHash(x.X)
+	case Index:
+		return HasMultiHash(x.X) || HasMultiHash(x.I)
+	case Dot:
+		return HasMultiHash(x.X)
+	case Ternary:
+		return HasMultiHash(x.C) || HasMultiHash(x.A) || HasMultiHash(x.B)
+	case Call:
+		for _, a := range x.Args {
+			if HasMultiHash(a) {
+				return true
+			}
+		}
+	case ArrayLit:
+		for _, a := range x.Elems {
+			if HasMultiHash(a) {
+				return true
+			}
+		}
+	case HashLit:
+		if len(x.Keys) > 1 {
+			return true
+		}
+		for i := range x.Keys {
+			if HasMultiHash(x.Keys[i]) || HasMultiHash(x.Vals[i]) {
+				return true
+			}
+		}
+	}
+	return false
+}
